@@ -1,6 +1,7 @@
 import Driver.Loop
 import SquidModel.Ftp.Addr
 import SquidModel.Ftp.Listing
+import SquidModel.Ftp.Epsv
 open SquidModel SquidModel.Ftp
 
 namespace Driver.C40
@@ -70,6 +71,15 @@ def handle (line : String) : String :=
       | .null => "null"
       | .parts p => s!"T={p.type.toNat} S={p.size} D={showOpt p.date} N={showOpt p.name} L={showOpt p.link}"
     | _, _ => "bad-op"
+  | ["v", sanity, h] =>
+    match Bytes.ofHex h with
+    | some b =>
+      if (sanity != "0" && sanity != "1") || !noNul b then "bad-op" else
+      match parseEpsv (sanity == "1") b with
+      | .reject => "reject"
+      | .ok p => s!"ok {p}"
+      | .indeterminate p => s!"indeterminate {p}"
+    | none => "bad-op"
   | ["u", h] =>
     match Bytes.ofHex h with
     | some b => if !noNul b then "bad-op" else Bytes.toHex (unescapeDoubleQuoted b)
